@@ -420,6 +420,160 @@ fn apply(c: &mut ReqCase, p: (u8, u8, u8)) {
     }
 }
 
+// ------------------------------------------------------------------ over a real socket (run_listener)
+
+/// The gate behind a real listening socket, as deployed: `run_listener` + hyper's HTTP/1.1 connection handling + the recovery of
+/// the raw socket after the 101. A valid upgrade must give a tunnel that WORKS (a logical stream to an echo target carries
+/// bytes both ways); a rejected one must be answered byte for byte like the same request on an unknown path.
+#[derive(Clone, Debug, Hash, PartialEq, Eq, Serialize, Deserialize)]
+pub struct LoopCase {
+    /// HTTP/TLS timeout of the server: 0 = disabled (the library default), 1 = 60 s (the command-line default), 2 = 2 s
+    pub timeout: u8,
+    pub psk: bool,
+    pub obfs: bool,
+    /// 0 valid; 1 wrong PSK (or, without a configured PSK, an unneeded one: still valid); 2 no key; 3 another protocol revision;
+    /// 4 POST; 5 Upgrade: h2c
+    pub req: u8,
+}
+
+async fn echo_target() -> u16 {
+    let l = tokio::net::TcpListener::bind("127.0.0.1:0").await.expect("bind");
+    let port = l.local_addr().unwrap().port();
+    tokio::spawn(async move {
+        loop {
+            let Ok((mut s, _)) = l.accept().await else { continue };
+            tokio::spawn(async move {
+                let (mut r, mut w) = s.split();
+                let _ = tokio::io::copy(&mut r, &mut w).await;
+            });
+        }
+    });
+    port
+}
+
+/// one raw HTTP/1.1 exchange: (status line, sorted headers without date, body)
+async fn raw_exchange(port: u16, request: &[u8]) -> Result<(String, Vec<String>, Vec<u8>), String> {
+    use tokio::io::{AsyncReadExt, AsyncWriteExt};
+    let mut s = tokio::net::TcpStream::connect(("127.0.0.1", port)).await.map_err(|e| e.to_string())?;
+    s.write_all(request).await.map_err(|e| e.to_string())?;
+    let mut buf = vec![];
+    let mut tmp = [0u8; 4096];
+    let head_end = loop {
+        if let Some(p) = buf.windows(4).position(|w| w == b"\r\n\r\n") {
+            break p;
+        }
+        let n = tokio::time::timeout(std::time::Duration::from_secs(10), s.read(&mut tmp)).await.map_err(|_| "no response within 10 s".to_string())?.map_err(|e| e.to_string())?;
+        if n == 0 {
+            return Err(format!("connection closed after {} bytes of response", buf.len()));
+        }
+        buf.extend_from_slice(&tmp[..n]);
+    };
+    let head = String::from_utf8_lossy(&buf[..head_end]).to_string();
+    let mut lines = head.split("\r\n");
+    let status = lines.next().unwrap_or("").to_string();
+    let mut headers: Vec<String> = lines.map(|l| l.to_string()).filter(|l| !l.to_ascii_lowercase().starts_with("date:")).collect();
+    headers.sort();
+    let clen = headers.iter().find_map(|h| h.to_ascii_lowercase().strip_prefix("content-length:").map(|v| v.trim().parse::<usize>().unwrap_or(0))).unwrap_or(0);
+    let mut body = buf[head_end + 4..].to_vec();
+    while body.len() < clen {
+        let n = tokio::time::timeout(std::time::Duration::from_secs(10), s.read(&mut tmp)).await.map_err(|_| "body incomplete after 10 s".to_string())?.map_err(|e| e.to_string())?;
+        if n == 0 {
+            break;
+        }
+        body.extend_from_slice(&tmp[..n]);
+    }
+    Ok((status, headers, body))
+}
+
+pub fn check_loopback(c: &LoopCase) -> Outcome {
+    use penguin_mux::timing::OptionalDuration;
+    use tokio::io::{AsyncReadExt, AsyncWriteExt};
+    let fx = fixture();
+    let valid = match c.req {
+        0 => true,
+        1 => !c.psk,
+        _ => false,
+    };
+    let r: Result<(), (String, String)> = fx.rt.block_on(async {
+        let psk: &'static HeaderValue = Box::leak(Box::new(HeaderValue::from_static(PSK)));
+        let timeout = match c.timeout {
+            0 => OptionalDuration::NONE,
+            1 => OptionalDuration::from_secs(60),
+            _ => OptionalDuration::from_secs(2),
+        };
+        let state = State::new().await.map_err(|e| ("c14-harness".to_string(), e.to_string()))?.with_ws_psk(if c.psk { Some(psk) } else { None }).obfs(c.obfs).with_not_found_resp(NOT_FOUND_BODY).with_backend(None).with_backend_http2_support(false).with_http_timeout(timeout).with_tls_timeout(timeout);
+        let listener = tokio::net::TcpListener::bind("127.0.0.1:0").await.map_err(|e| ("c14-harness".to_string(), e.to_string()))?;
+        let port = listener.local_addr().unwrap().port();
+        let server = tokio::spawn(rusty_penguin_lib::server::run_listener(listener, None, state));
+        let headers = |path: &str| {
+            let mut h = format!("{} {path} HTTP/1.1\r\nhost: localhost\r\nconnection: upgrade\r\nupgrade: {}\r\nsec-websocket-version: 13\r\nsec-websocket-protocol: {}\r\n", if c.req == 4 { "POST" } else { "GET" }, if c.req == 5 { "h2c" } else { "websocket" }, if c.req == 3 { "penguin-v6" } else { "penguin-v7" });
+            if c.req != 2 {
+                h.push_str(&format!("sec-websocket-key: {KEY}\r\n"));
+            }
+            if c.psk || c.req == 1 {
+                h.push_str(&format!("x-penguin-psk: {}\r\n", if c.req == 1 { "not the key" } else { PSK }));
+            }
+            if c.req == 4 {
+                h.push_str("content-length: 0\r\n");
+            }
+            h.push_str("\r\n");
+            h
+        };
+        let res = async {
+            if valid {
+                // a real WebSocket client on a real socket, then a real multiplexor on top: the tunnel has to carry a stream
+                let tcp = tokio::net::TcpStream::connect(("127.0.0.1", port)).await.map_err(|e| ("c14-harness".to_string(), e.to_string()))?;
+                let mut req = tokio_tungstenite::tungstenite::client::IntoClientRequest::into_client_request(format!("ws://127.0.0.1:{port}/ws")).map_err(|e| ("c14-harness".to_string(), e.to_string()))?;
+                req.headers_mut().insert("sec-websocket-protocol", HeaderValue::from_static("penguin-v7"));
+                if c.psk {
+                    req.headers_mut().insert("x-penguin-psk", HeaderValue::from_static(PSK));
+                } else if c.req == 1 {
+                    req.headers_mut().insert("x-penguin-psk", HeaderValue::from_static("not the key"));
+                }
+                let (ws, resp) = tokio_tungstenite::client_async(req, tcp).await.map_err(|e| ("c14-loopback:valid-rejected".to_string(), format!("a valid upgrade over a real socket was not answered with a proper 101: {e}")))?;
+                if resp.headers().get("sec-websocket-protocol").map(|v| v.as_bytes()) != Some(b"penguin-v7") {
+                    return Err(("c14-loopback:101-without-protocol".to_string(), format!("101 headers: {:?}", resp.headers())));
+                }
+                let target = echo_target().await;
+                let mux = penguin_mux::Multiplexor::new(ws);
+                let work = async {
+                    let mut st = mux.new_stream_channel(b"127.0.0.1", target).await.map_err(|e| format!("stream request failed: {e}"))?;
+                    st.write_all(b"tunnel?").await.map_err(|e| format!("write failed: {e}"))?;
+                    let mut back = [0u8; 7];
+                    st.read_exact(&mut back).await.map_err(|e| format!("read failed: {e}"))?;
+                    if &back != b"tunnel?" {
+                        return Err(format!("echo corrupted: {back:?}"));
+                    }
+                    Ok::<(), String>(())
+                };
+                match tokio::time::timeout(std::time::Duration::from_secs(10), work).await {
+                    Ok(Ok(())) => Ok(()),
+                    Ok(Err(e)) => Err(("c14-loopback:101-but-no-tunnel".to_string(), format!("the server answered 101 to a valid upgrade but the tunnel does not work: {e}"))),
+                    Err(_) => Err(("c14-loopback:101-but-no-tunnel".to_string(), "the server answered 101 to a valid upgrade but a stream through the tunnel got no echo within 10 s".to_string())),
+                }
+            } else {
+                let a = raw_exchange(port, headers("/ws").as_bytes()).await.map_err(|e| ("c14-loopback:no-response".to_string(), format!("rejected /ws request: {e}")))?;
+                let b = raw_exchange(port, headers("/nothing-here").as_bytes()).await.map_err(|e| ("c14-loopback:no-response".to_string(), format!("unknown path: {e}")))?;
+                if a != b {
+                    return Err(("c14-distinguishable:loopback".to_string(), format!("over a real socket the rejected /ws request got {a:?}, the same request on an unknown path {b:?}")));
+                }
+                if a.0.contains(" 101") {
+                    return Err(("c14-invalid-upgraded:loopback".to_string(), format!("an invalid request was answered {}", a.0)));
+                }
+                Ok(())
+            }
+        }
+        .await;
+        server.abort();
+        res
+    });
+    match r {
+        Err((sig, msg)) if sig == "c14-harness" => Outcome::inconclusive(msg),
+        Err((sig, msg)) => Outcome::violation(sig, format!("{c:?}: {msg}")),
+        Ok(()) => Outcome::pass(true, vec![if valid { "loopback-valid-upgrade-tunnel-works" } else { "loopback-rejected-equals-unknown-path" }]),
+    }
+}
+
 pub fn run(ctx: &Ctx, rep: &mut Report) {
     rep.rule = "requests = method {GET,POST,HEAD,PUT,OPTIONS} x path {/ws,/ws?x=1,/ws/,/WS,/wsx,/,/health,/version,/x} x for each of Connection, Upgrade, Sec-WebSocket-Version, Sec-WebSocket-Protocol, Sec-WebSocket-Key, X-Penguin-PSK a variant in {exact, absent, case-changed, prefix, suffix, padded, token list, empty, duplicate valid+valid / valid+invalid / invalid+valid, other, one letter replaced by its non-ASCII Unicode case partner (U+212A, U+017F)} \
                 x server configuration {no PSK, an ASCII PSK, a PSK with octets >= 0x80} x {obfs on/off} x {static 404 body, local deterministic backend}. ALL requests deviating from a valid upgrade in <= 2 places are enumerated under all 12 configurations, random requests beyond; the valid request and every single deviation also without an upgrade offered by the HTTP layer (HTTP/1.0, HTTP/2). \
@@ -491,5 +645,15 @@ pub fn run(ctx: &Ctx, rep: &mut Report) {
                 .prop_map(|(psk, obfs, backend, method, path, headers, (extra, no_upgrade))| ReqCase { cfg: Cfg { psk, obfs, backend }, method, path, headers, extra, no_upgrade })
         },
         check,
+    );
+    // the same gate behind a real socket (run_listener): all combinations of {timeout disabled / 60 s / 2 s} x {PSK or not} x
+    // {obfs or not} x six requests
+    ctx.enumerate(
+        rep,
+        "loopback",
+        3 * 2 * 2 * 6,
+        20,
+        |i| LoopCase { timeout: (i % 3) as u8, psk: (i / 3) % 2 == 1, obfs: (i / 6) % 2 == 1, req: (i / 12) as u8 },
+        check_loopback,
     );
 }
